@@ -59,7 +59,7 @@ pub fn c08(quick: bool) -> PropRun {
         if quick { env.fates = DF_LOSS; }
         scs.push(sc("C08.two-clients", &cfg, script, env, d, EO_C08));
     }
-    PropRun { level: "model_checking", scenarios: scs, summary: ew_summary(
+    PropRun { level: "model_checking", scenarios: scs, units: vec![], replay_case: None, summary: ew_summary(
         "every explored execution's event streams (client: per Client object; server: per address, with Server::drop as a silent end) are run through the reference automaton Connect? Receive* (Disconnect|Error)?",
         json!({"d": d, "application_menu": "send / disconnect / disconnect_now / drop / reconnect from the same address / forget, on either side, at every round of the window", "fates": "deliver/drop/dup/hold2/stale copy 10 rounds later on every datagram", "deltas_ms": [100, 0, 2000, 20000], "active_timeouts_ms": timeouts})) }
 }
@@ -123,7 +123,7 @@ pub fn c07(quick: bool) -> PropRun {
         let mut env = EwEnv::basic(3, 80); env.fates = DF_LOSS; env.deltas = &[100];
         scs.push(ew_scenario(EwSpec { tag: "C07.version".into(), cfg, script: Arc::new(script), env, d: 1, oracles: o | EO_C18, n_raw: 2 }));
     }
-    PropRun { level: "model_checking", scenarios: scs, summary: ew_summary(
+    PropRun { level: "model_checking", scenarios: scs, units: vec![], replay_case: None, summary: ew_summary(
         "handshake ledger over every explored execution: Connect only after the matching nonce was delivered, one Connect per handshake, first data frames start at the exchanged nonces and the echo completes, incompatible configurations are refused with Error(Config); forged handshake frames are checked differentially against the same run without the forgery",
         json!({"handshake_fates": "complete enumeration over SYN/SYN-ACK/ACK/error datagrams (deliver/drop/dup/hold/stale copy)", "d_other": if quick { 2 } else { 3 }, "forced_nonces": ["seeded", "2^32-2, 2^32-1, 0, 2^32-1", "equal nonces on both sides"], "forged_alphabet": "SYN other nonce / other version, ACK wrong nonce, SYN-ACK, error frames of all three kinds from the client's address; SYN-ACK with wrong nonce_ack, error frames with wrong nonce_ack, SYN, ACK from the server's address; at every round"})) }
 }
@@ -226,7 +226,7 @@ pub fn c17(quick: bool) -> PropRun {
             }
         }
     }
-    PropRun { level: "model_checking", scenarios: scs, summary: ew_summary(
+    PropRun { level: "model_checking", scenarios: scs, units: vec![], replay_case: None, summary: ew_summary(
         "limit ledger on the server's own event stream and tracked-connection count at every round of every explored execution; all interleavings of the handshake datagrams of 2-3 clients are enumerated completely (free choices), 4 clients deviation-bounded",
         json!({"limits(max_active,max_total)": "(1,1) (1,2) (1,3) (2,2) (2,3) (2,4) (3,3)", "clients": [2, 3, 4], "handshake_fates": "deliver / hold 2 rounds / drop on SYN, SYN-ACK, ACK", "endings": "client disconnect, server disconnect, Server::drop, vanished client (time-out)"})) }
 }
@@ -294,7 +294,7 @@ pub fn c18(quick: bool) -> PropRun {
             scs.push(Scenario { name, d: 0, run: Box::new(run) });
         }
     }
-    PropRun { level: "fault_enumeration", scenarios: scs, summary: Summary {
+    PropRun { level: "fault_enumeration", scenarios: scs, units: vec![], replay_case: None, summary: Summary {
         rule: "every sequence of up to `len` raw datagrams from two spoofable addresses with waits of 0.5/2/21/23 s between them is sent to a real Server (once with room, once full and serving an honest client); a byte ledger per address is evaluated over all datagrams of the execution; distinct = distinct (sequence, outcome)".into(),
         bounds: json!({"plans(len,reduced_alphabet)": plans, "alphabet": raw_alphabet().iter().map(|x| x.0).collect::<Vec<_>>(), "reduced_alphabet": ["valid SYN", "SYN other nonce", "SYN 1471 bytes", "SYN wrong version", "SYN config refused (packet too big)", "ACK wrong nonce", "garbage"], "waits_rounds_of_500ms": [1, 4, 42, 46], "server": ["default limits", "full (1 connection, taken by an honest client)"]}),
         assumptions: A_EW.iter().map(|s| s.to_string()).collect(), witness_names: vec!["the server replied to an unverified address", "SYN-ACK retransmissions to an unverified address"], extra: json!({}), exhaustive: true } }
@@ -359,7 +359,7 @@ pub fn c10(quick: bool) -> PropRun {
             scs.push(sc(&format!("C10.{}", sname), &cfg, vec![at(0, Act::Connect(0)), after_c(0, 1, Act::CSend(0, 0, SendMode::Reliable, 100)), after_c(0, 4, act)], env, if quick { 1 } else { 2 }, EO_C10));
         }
     }
-    PropRun { level: "model_checking", scenarios: scs, summary: ew_summary(
+    PropRun { level: "model_checking", scenarios: scs, units: vec![], replay_case: None, summary: ew_summary(
         "reference timers (active time-out since the last processed data/ack/sync frame or Connect; 10 resends 2 s apart for handshake and disconnect) are stepped alongside every explored execution and compared at every step: no Error(Timeout) before the deadline, Error(Timeout) in the first step at or after it; idle keep-alive connections are run for 10x the time-out",
         json!({"active_timeouts_ms": timeouts, "keepalive_ms": ["off", 500, 2500, 5000], "cadences_ms": cadences, "handshake_losses": "SYN or SYN-ACK lost 0..11 times", "deviations": "one or two step spacings replaced by 0, 1, 2, 999, 1000, 1001, 1999, 2000, 2001, 3000 ms; permanent blackout from any round of the window"})) }
 }
@@ -398,7 +398,7 @@ pub fn c09(quick: bool) -> PropRun {
             }
         }
     }
-    PropRun { level: "model_checking", scenarios: scs, summary: ew_summary(
+    PropRun { level: "model_checking", scenarios: scs, units: vec![], replay_case: None, summary: ew_summary(
         "every explored execution: Reliable packets submitted before disconnect() are delivered to the peer before its Disconnect event (unless the peer disconnects itself); once a disconnect request is on the wire both ends report a terminal event within 22 s + one step per retry; nothing after it (C08 automaton)",
         json!({"d": d, "queued_data": "0, 1, 3, 8 packets of mixed modes incl. multi-fragment", "who": "client or server, disconnect() or disconnect_now()", "blackouts": "to server / to client / both, permanent, from every round of the window"})) }
 }
